@@ -252,7 +252,17 @@ fn localise(tables: &Tables, agg: &AggregateStatement, rows: &[RowFacts], lines:
             Err(e) => Some(match e { eng::EngErr::Panic(p) => format!("panic:{}", p.class()), eng::EngErr::Err(_) => "error".into() }),
             Ok(got) => { let Statement::Aggregate(r) = &stmt else { unreachable!() }; compare_table(r, &exp, &got).into_iter().find(|m| m.what != "missing-group|no-aggregate-has-a-value").map(|m| m.what) }
         };
-        if let Some(b) = bad { alone.push(format!("{}({})>{}", aggregate_kind(&a.aggregate), arg_tag(agg, rows, i), b)); }
+        if let Some(b) = bad {
+            let (kind, tag) = (aggregate_kind(&a.aggregate), arg_tag(agg, rows, i));
+            // recorded finding: STDDEV / VARIANCE over an INTERVAL argument never has a value (the group shows NULL, vanishes when
+            // it was the only aggregate, or the square of the interval leaves the 64-bit range) - one signature for all its faces;
+            // a panic or a value in the wrong row is not part of it
+            if (kind == "stddev" || kind == "variance") && tag == "Iv" && (b == "error" || b.starts_with("missing-group") || b.starts_with("cell|stddev|") || b.starts_with("cell|variance|")) {
+                alone.push("stddev-or-variance(Iv)>never-has-a-value".into());
+            } else {
+                alone.push(format!("{}({})>{}", kind, tag, b));
+            }
+        }
     }
     alone.sort(); alone.dedup();
     if !alone.is_empty() {
